@@ -126,12 +126,83 @@ def o2(h, st):
 
 
 PROPERTY = {
-    "level": "exploration",
-    "explanation": "Numerical statements about simulated energies: no contract within the verifier's reach decides them (floating-point state simulation, eigenvalues). Bounded native contract "
+    "level": "other",
+    "explanation": "Deductive part: energy_estimation's assembly (which circuit and Hamiltonian reach the backend, reference / projective placement, deflation sum E + coeff * sum f_k) is proved "
+                   "from the AST with the backend opaque, for every value of E, f_k and the coefficient. The numerical statements about simulated energies are not decidable by contracts "
+                   "(floating-point state simulation, eigenvalues): bounded native contract "
                    "runs: the solver's methods are executed and compared with an independent evaluation (exact state of the ansatz circuit by tverif.qsem, matrix of the qubit operator "
                    "by openfermion) for random parameter vectors, every encoding (lower / upper case), deflation on and off.",
     "bounds": {"quick": "12 (molecule, ansatz, encoding, ordering) configurations on H2 / H4+ x 2 parameter vectors; N, Sz, S^2 for 8 configurations", "thorough": "13 configurations x 5 vectors"},
     "assumptions": ["cirq simulator, PySCF, openfermion executed natively; tolerance 1e-8", "variational bound: checked against numpy eigenvalues"],
     "trusted_base": ["tverif AST interpreter (only to record the functions exercised)", "tverif.qsem (independent state evaluation)", "cirq", "pyscf", "openfermion", "numpy"],
-    "technique": "bounded native contract checking (run-time pre/post-conditions with an independent oracle); not a proof",
+    "technique": "contract-based deductive verification of the solver's assembly code (AST symbolic execution, opaque backend); bounded native contract checking with an independent oracle for the simulated values (labelled bounded)",
 }
+
+
+class _OpaqueBackend:
+    """an opaque compute backend: returns symbolic values and records what it is asked"""
+
+    def __init__(self, E, freqs):
+        self.E, self.freqs = E, list(freqs)
+        self.calls = []
+        self.n_shots = None
+
+    def get_expectation_value(self, qubit_operator, circuit, **kw):
+        self.calls.append(("expectation", qubit_operator, circuit, kw))
+        return self.E
+
+    def simulate(self, circuit, **kw):
+        k = sum(1 for c in self.calls if c[0] == "simulate")
+        self.calls.append(("simulate", circuit, kw))
+        w = circuit.width
+        return ({"0" * w: self.freqs[k], "1" * w: 1 - self.freqs[k]}, None)
+
+
+@contract("C08", "O3.energy_estimation.structure", level="S", native_samples=lambda st, rnd, tier: [{"E": -1.1, "f0": 0.3, "f1": 0.05, "coeff": 0.7}],
+          structures=lambda tier: [{"ref": r, "proj": p, "ndefl": d} for r in (False, True) for p in (False, True) for d in (0, 1, 2)],
+          targets=[(VQ, "VQESolver.energy_estimation")])
+def o3(h, st):
+    """with the compute backend opaque: energy_estimation(theta) updates the ansatz with theta, asks the backend for the expectation value of the solver's Hamiltonian
+    (same object) on ansatz.circuit [reference first, projective circuit last], and returns E + deflation_coeff * sum_k f_k('0...0') where f_k comes from
+    deflation_circuit_k followed by the inverse of that same circuit - for EVERY value of E, f_k and the coefficient; the ansatz circuit object is not modified"""
+    import numpy as np
+    from tangelo.linq import Circuit, Gate
+    from tangelo.algorithms.variational import VQESolver, BuiltInAnsatze
+    from contracts.C07 import molecule
+    E, coeff = h.real("E"), h.real("coeff")
+    fs = [h.real(f"f{k}") for k in range(2)]
+    s = VQESolver({"molecule": molecule("H2"), "ansatz": BuiltInAnsatze.UCCSD, "qubit_mapping": "jw"})
+    s.build()
+    w = s.ansatz.circuit.width
+    s.backend = _OpaqueBackend(E, fs)
+    s.deflation_circuits = [Circuit([Gate("X", k)], n_qubits=w) for k in range(st["ndefl"])]
+    s.deflation_coeff = coeff
+    s.ref_state = [1, 0, 0, 0] if st["ref"] else None
+    s.reference_circuit = Circuit([Gate("X", 0)], n_qubits=w) if st["ref"] else Circuit()
+    s.projective_circuit = Circuit([Gate("H", 1)], n_qubits=w) if st["proj"] else None
+    th = np.array([0.11, -0.23])
+    ham = s.qubit_hamiltonian
+    n_ansatz = len(s.ansatz.circuit._gates)
+    ansatz_circuit = s.ansatz.circuit
+    e = h.call(VQ, "VQESolver.energy_estimation", s, th)
+    exp = E
+    for k in range(st["ndefl"]):
+        exp = exp + coeff * fs[k]
+    h.check_close("energy == E + coeff * sum_k f_k('0...0')", e, exp, tol=1e-12)
+    calls = s.backend.calls
+    h.check("one expectation-value request", sum(1 for c in calls if c[0] == "expectation") == 1)
+    ex = [c for c in calls if c[0] == "expectation"][0]
+    h.check("the solver's Hamiltonian object is passed unchanged", ex[1] is ham and s.qubit_hamiltonian is ham)
+    circ = ex[2]
+    sig = [(g.name, tuple(g.target)) for g in circ._gates]
+    ans = [(g.name, tuple(g.target)) for g in s.ansatz.circuit._gates]
+    exp_sig = ([("X", (0,))] if st["ref"] else []) + ans + ([("H", (1,))] if st["proj"] else [])
+    h.check("circuit == [reference] ++ ansatz ++ [projective]", sig == exp_sig)
+    h.check("ansatz parameters were updated with theta", all(abs(float(a) - float(b)) < 1e-12 for a, b in zip(s.ansatz.var_params, th)))
+    h.check("ansatz circuit not modified by the concatenations", s.ansatz.circuit is ansatz_circuit and len(s.ansatz.circuit._gates) == n_ansatz)
+    sims = [c for c in calls if c[0] == "simulate"]
+    h.check("one overlap circuit per deflation circuit", len(sims) == st["ndefl"])
+    for k, c in enumerate(sims):
+        g = [(x.name, tuple(x.target)) for x in c[1]._gates]
+        h.check(f"overlap circuit {k} == deflation circuit ++ inverse(state circuit)", g[0] == ("X", (k,)) and len(g) == 1 + len(exp_sig))
+    h.done()
